@@ -41,9 +41,17 @@ type OCtx struct {
 	Rig  *Rig
 	wit  map[string]int64
 	outc map[string]int64
+	maps *mapOrderStats
 }
 
 func (x *OCtx) Wit(clause string) { x.wit[clause]++ }
+
+func (x *OCtx) mapStats() *mapOrderStats {
+	if x.maps == nil {
+		x.maps = &mapOrderStats{Sites: map[string]int64{}}
+	}
+	return x.maps
+}
 
 func viol(prop, clause, kind, disc, detail string) Violation {
 	return Violation{Prop: prop, Clause: clause, Sig: prop + "|" + clause + "|" + kind + "|" + disc, Detail: detail}
@@ -304,6 +312,15 @@ func (e *Engine) mergeCounts(x *OCtx) {
 	for k, v := range x.outc {
 		e.Outcomes[k] += v
 	}
+	if x.maps != nil {
+		e.Wit["C20:map-order/transitions-ranging-over-2+-keys"] += x.maps.Transitions
+		e.Wit["C20:map-order/alternative-orders-executed"] += x.maps.Orders
+		e.Wit["C20:map-order/transitions-with-capped-product"] += x.maps.Capped
+		for s, n := range x.maps.Sites {
+			e.Wit["C20:map-order/site/"+s] += n
+		}
+		x.maps = nil
+	}
 	x.wit = map[string]int64{}
 	x.outc = map[string]int64{}
 }
@@ -323,6 +340,9 @@ func (e *Engine) expandNode(x *OCtx, id int32) []expandResult {
 				viols = append(viols, viol("C20", "deterministic-replay", a.Kind, "two-keeper-instances-diverge",
 					fmt.Sprintf("same state + same action gave different successors (%s vs %s)", res.Outcome(), res2.Outcome())))
 			}
+		}
+		if e.DetCheck && mapOrderEnabled {
+			viols = append(viols, mapOrderCheck(e.rig, e.Sc, pre, a, post, res, x.mapStats())...)
 		}
 		postV := e.rig.Decode(post)
 		postMon := preMon.Update(e.MonFlags, e.Sc, preV, a, res, postV)
